@@ -2,7 +2,7 @@
 import traceback
 
 from checks import servers
-from checks.common import swarm
+from checks.common import swarm, exc_choice
 from checks.c02_server_results import check_outcomes, shrink as shrink2
 
 ID = 'C04'
@@ -51,7 +51,7 @@ def gen(rng, tier):
     for lf in rng.sample(lvs, min(len(lvs), nfail_leaves)):
         key = 'pre_fail' if rng.random() < 0.3 else 'fail'
         k = rng.choice([1, 1, 2, 3, max(1, len(allx) // 2), len(allx)])
-        lf[key] = {'xs': sorted(rng.sample(allx, min(len(allx), k))), 'exc': rng.choice(['ExcA', 'ExcB', 'ExcC', 'KeyError', 'ZeroDivisionError'])}
+        lf[key] = {'xs': sorted(rng.sample(allx, min(len(allx), k))), 'exc': exc_choice(rng, ['ExcA', 'ExcB', 'ExcC', 'KeyError', 'ZeroDivisionError'])}
     sc = {'tree': tree, 'capacity': rng.choice([1, 2, 4, 8]), 'async': rng.random() < 0.35, 'callers': callers, 'post': [next(nxt)]}
     cfg = swarm(rng, racy=0.15, line=0.3, max_time=400.0, max_steps=600_000)
     return {'scenario': sc, 'sim': cfg}
